@@ -822,6 +822,16 @@ class AsyncFIXConnection:
                 await self._state_set(ConnectionState.LOGON_INITIAL_RECV)
                 self._connection_role = ConnectionRole.ACCEPTOR
 
+            if (
+                self._connection_state == ConnectionState.LOGON_INITIAL_SENT
+                and msg.msg_type != FMsg.LOGON
+                and msg.msg_type != FMsg.LOGOUT
+            ):
+                # Initiator: nothing but Logon()/Logout() is expected before the
+                #   acceptor has answered our Logon()
+                await self.disconnect(ConnectionState.DISCONNECTED_BROKEN_CONN)
+                return
+
             if msg.msg_type == FMsg.LOGON:
                 await self._process_logon(msg)
             elif msg.msg_type == FMsg.SEQUENCERESET:
